@@ -789,6 +789,8 @@ int parse_instruction_msp430(AsmContext *asm_context, char *instr)
                 instr, asm_context->tokens.filename, asm_context->tokens.line);
               return -1;
             }
+
+            operand_to_cg(asm_context, &operands[0], bw);
           }
             else
           if (table_msp430[n].type == OP_ONE_OPERAND_X && size != 0)
